@@ -23,13 +23,14 @@ pub struct Layout {
     pub wrap: bool,           // flow: line break after every top-level entry
     pub quote_keys: bool,
     pub lead_blank: bool,     // two blank lines before the document
+    pub root_indent: usize,   // every line of the document indented by this many spaces
 }
 impl Layout {
     pub fn new(kind: &'static str) -> Layout {
-        Layout { kind, indent: 2, quote: Quote::PlainSafe, doc_start: false, comments: false, blank_lines: false, wrap: false, quote_keys: false, lead_blank: false }
+        Layout { kind, indent: 2, quote: Quote::PlainSafe, doc_start: false, comments: false, blank_lines: false, wrap: false, quote_keys: false, lead_blank: false, root_indent: 0 }
     }
     pub fn name(&self) -> String {
-        format!("{}{}{}{}{}{}{}", self.kind, if self.kind == "block" || self.kind == "json-pretty" { format!("-i{}", self.indent) } else { String::new() }, match self.quote { Quote::PlainSafe => "", Quote::Single => "-sq", Quote::Double => "-dq", Quote::Literal => "-lit", Quote::Folded => "-fold" }, if self.doc_start { "-doc" } else { "" }, if self.comments { "-cmt" } else { "" }, if self.blank_lines { "-blank" } else { "" }, if self.wrap { "-wrap" } else { "" }) + if self.quote_keys { "-qk" } else { "" } + if self.lead_blank { "-leadblank" } else { "" }
+        format!("{}{}{}{}{}{}{}", self.kind, if self.kind == "block" || self.kind == "json-pretty" { format!("-i{}", self.indent) } else { String::new() }, match self.quote { Quote::PlainSafe => "", Quote::Single => "-sq", Quote::Double => "-dq", Quote::Literal => "-lit", Quote::Folded => "-fold" }, if self.doc_start { "-doc" } else { "" }, if self.comments { "-cmt" } else { "" }, if self.blank_lines { "-blank" } else { "" }, if self.wrap { "-wrap" } else { "" }) + if self.quote_keys { "-qk" } else { "" } + if self.lead_blank { "-leadblank" } else { "" } + &if self.root_indent > 0 { format!("-rootindent{}", self.root_indent) } else { String::new() }
     }
 }
 
@@ -372,6 +373,13 @@ pub fn write(v: &V, l: &Layout) -> (String, Positions) {
         }
         _ => block(&mut w, v, l, "", 0, false),
     }
+    if l.root_indent > 0 {
+        // the whole document moved to the right (a block document may be indented at its root)
+        let pad = " ".repeat(l.root_indent);
+        let text: String = w.out.split_inclusive('\n').map(|ln| if ln.trim().is_empty() { ln.to_string() } else { format!("{}{}", pad, ln) }).collect();
+        let pos = w.pos.into_iter().map(|(p, ln, c)| (p, ln, c + l.root_indent)).collect();
+        return (text, pos);
+    }
     (w.out, w.pos)
 }
 
@@ -393,6 +401,16 @@ pub fn layouts_c11() -> Vec<Layout> {
         b.quote = q;
         out.push(b);
     }
+    for kind in ["block", "flow", "json-pretty"] {
+        let mut ri = Layout::new(kind);
+        ri.root_indent = 3;
+        out.push(ri);
+    }
+    let mut rib = Layout::new("block");
+    rib.root_indent = 2;
+    rib.lead_blank = true;
+    rib.quote = Quote::Double;
+    out.push(rib);
     let mut qk = Layout::new("block");
     qk.quote_keys = true;
     out.push(qk);
